@@ -1011,6 +1011,28 @@ Proof.
   cbn in H1, H2. inversion H1; inversion H2; subst. exact P3.
 Qed.
 
+(* ---------- first start: insertGenesisBlock cut anywhere, then a restart ---------- *)
+Ltac gen_solve :=
+  cbn; unfold upd, tmem; intros;
+  try (match goal with H : txs gen = [] |- _ => rewrite H end);
+  try (match goal with H : _ \/ False |- _ => destruct H as [<-|[]] end);
+  repeat match goal with |- context [?a =? ?b] => destruct (N.eqb_spec a b) end;
+  cbn; try congruence; try reflexivity.
+
+Lemma genesis_crash_safe : txs gen = [] -> forall k, rep (boot gen (crash k (genesis_writes gen) st0)) [gen].
+Proof.
+  intro Htx.
+  assert (Full : rep (apply (genesis_writes gen) st0) [gen]) by (constructor; gen_solve).
+  intro k. destruct (le_lt_dec 5 k) as [Hk|Hk].
+  { rewrite crash_all by (cbn; lia). unfold boot.
+    assert (Hcur : cur (apply (genesis_writes gen) st0) = Some gen) by reflexivity. rewrite Hcur.
+    unfold recover. rewrite (recover_writes_rep _ _ Full). exact Full. }
+  assert (Hn : cur (crash k (genesis_writes gen) st0) = None).
+  { do 5 (destruct k as [|k]; [reflexivity|]). lia. }
+  unfold boot. rewrite Hn.
+  do 5 (destruct k as [|k]; [unfold crash; constructor; gen_solve|]). lia.
+Qed.
+
 Lemma rep_st_of : forall l, rep (st_of l) l.
 Proof.
   intro l. constructor; cbn; auto.
